@@ -271,6 +271,10 @@ class Classifier:
                 return self.space(src.args[t.name], kc, depth + 1)
             if src.op == "call" and src.name == "enumerate" and t.name == 1:
                 return self.space(src.args[0], kc, depth + 1)
+            # element i of the tuples produced by a comprehension / list of tuples
+            if src.op in ("comp",) and src.args and src.args[0].op == "tuple" and isinstance(t.name, int) and \
+                    t.name < len(src.args[0].args):
+                return self.space(src.args[0].args[t.name], kc, depth + 1)
             # (name, inds) in X.items()  -> values of the dictionary X
             if t.name == 1 and src.op == "mcall" and src.name == "items" and self._is_named(src.args[0], "external_inds"):
                 return self.slot("external_inds", kc)
